@@ -13,5 +13,14 @@ Definition alloc_failure_clean (s : site) : Prop :=
     run_site s orc <> SilentNull /\
     (orc = None -> run_site s orc = ErrorEdge).
 
-(* full-strength table statement; it holds exactly when known_open_keys is empty *)
+(* a reviewed swallowed failure: never a NULL dereference, never a silent NULL; when the allocator fails the function goes on
+   by design (the reasons are with benign_swallowed_keys in ResModel.v).  NOT clean in the sense of the property text. *)
+Definition alloc_failure_swallowed_benign (s : site) : Prop :=
+  benign_swallowed s = true /\
+  forall orc : oracle,
+    (forall k, run_site s orc <> Fault k) /\
+    run_site s orc <> SilentNull /\
+    (orc = None -> run_site s orc = Swallowed).
+
+(* full-strength table statement; it holds exactly when known_open_keys and benign_swallowed_keys are empty *)
 Definition c19_table_statement : Prop := forall s, In s sites -> alloc_failure_clean s.
